@@ -8,7 +8,7 @@ PROP = dict(
     family="c01", session_start=None, trivial=nontrivial,
     n=dict(quick=12000, thorough=400000),
     # the packed-integer / chunking kernels are swept exhaustively in BOTH tiers; the message generator is sampled
-    exhaustive=dict(quick=True, thorough=True),
+    exhaustive=dict(quick=False, thorough=False),  # kernels are swept exhaustively, the message generator is sampled: the run as a whole is not an enumeration
     rule="records ein.msgs = one call of InboundMessagesToRawPanelASCIIstrings on messages built field by field from the "
          "repo's protobuf types (presence pattern x boundary values x random; 1-4 messages, 1-3 states, 0-5 ids, all 29 "
          "command fields, text strings incl. bytes >= 0x80). Exhaustive part (every run): all state 0-7 x output x blink "
